@@ -10,11 +10,17 @@ import time
 from . import vlib
 from .vlib import Inconclusive
 
-ALL_DEV = ["R11", "R18"]
-PLANS = ["read", "write", "unlink", "walk", "walk2", "clone", "global", "remove", "none", "attach"]
+ALL_DEV = ["R10", "R11", "R18"]
+PLANS = ["read", "open", "write", "unlink", "walk", "walk2", "clone", "global", "remove", "none", "attach"]
 
 # plan -> concrete requests and the backend method each is held at for the plan's call step
-READ_OPS = {"getattr": "GetAttr", "lopen": "Open", "read": "ReadAt", "readdir": "Readdir", "fsync": "FSync"}
+READ_OPS = {"getattr": "GetAttr", "read": "ReadAt", "readdir": "Readdir", "fsync": "FSync"}
+
+
+def open_idx():
+    """Step index of the Open call in plan open(n, f): after the fid's openMu unless R10 is still as found."""
+    return 4 if "R10" in vlib.fixed_ids() else 3
+
 WRITE_OPS = {"setattr": "SetAttr", "mkdir": "Mkdir", "create": "Create", "symlink": "Symlink", "mknod": "Mknod", "link": "Link"}
 
 
@@ -37,6 +43,7 @@ def instances():
     out = []
     for n in (1, 2, 3, 4):
         out.append(({"p": "read", "n": n, "e": 0}, [(3, READ_OPS, 1)]))
+        out.append(({"p": "open", "n": n, "e": 1}, [(open_idx(), {"lopen": "Open"}, 1)]))
         out.append(({"p": "write", "n": n, "e": 0}, [(3, WRITE_OPS, 1)]))
         out.append(({"p": "clone", "n": n, "e": 0}, [(6, {"clone": "Walk"}, 1)]))
     for e, par in ((2, 1), (3, 2), (4, 1)):
@@ -89,6 +96,8 @@ def make_cells(rng, full):
                             cid += 1
                             a = dict(pa, op=aop if aop != "walk2" else "walk2", k="", hold=ahold, holdidx=occ, i=ia)
                             b = dict(pb, op=bop, k="", hold=bhold, holdidx=1, i=ib)
+                            if b["p"] == "open":
+                                b["e"] = 2      # B opens a fid of its own (the same-fid cells are separate)
                             cells.append({"id": cid, "a": a, "b": b, "cross": cross})
     return cells
 
@@ -113,6 +122,23 @@ def racy_cells(start_id, repeats):
     return cells
 
 
+def samefid_cells(start_id):
+    """Both requests name the SAME fid (C07: 'same fid' path relation; 'Open is invoked at most once on a File')."""
+    ops = [("open", "lopen", "Open"), ("read", "getattr", "GetAttr"), ("write", "setattr", "SetAttr"), ("write", "mkdir", "Mkdir")]
+    cells = []
+    cid = start_id
+    for n in (2, 3):
+        for (pa, aop, ahold) in ops:
+            for (pb, bop, bhold) in ops:
+                cid += 1
+                cells.append({"id": cid, "samefid": True, "cross": False,
+                              "a": {"p": pa, "n": n, "e": 1 if pa == "open" else 0, "op": aop, "k": "", "hold": ahold, "holdidx": 1,
+                                    "i": open_idx() if pa == "open" else 3},
+                              "b": {"p": pb, "n": n, "e": 1 if pb == "open" else 0, "op": bop, "k": "", "hold": bhold, "holdidx": 1,
+                                    "i": open_idx() if pb == "open" else 3}})
+    return cells
+
+
 def run(prop, tier, seed, rule):
     t0 = time.time()
     verdict = vlib.Verdict(prop)
@@ -125,14 +151,14 @@ def run(prop, tier, seed, rule):
     runs = []
     with vlib.Scratch(prop) as s:
         # 1. the lock protocol implies the contract (named deviations tolerated), no stuck handler
-        r = vlib.run_tlc(s, "MC_PathLocks", cfg(2, PLANS, fixed, ["ContractInv", "LocksSane"], ["Terminates"]), name="mc-2h-live")
+        r = vlib.run_tlc(s, "MC_PathLocks", cfg(2, PLANS, fixed, ["ContractInv", "LocksSane", "OpenOnceInv"], ["Terminates"]), name="mc-2h-live")
         if "violated" in r:
             raise Inconclusive("PathLocks.tla violates %s (2 handlers)" % r["violated"])
         states += r.get("distinct", 0)
         transitions += r.get("generated", 0)
         runs.append({"config": "2 handlers, safety+liveness", "distinct": r.get("distinct"), "generated": r.get("generated"), "wall_s": round(r["wall_s"], 1)})
-        plans3 = PLANS if tier == "thorough" else ["read", "write", "unlink", "walk", "clone", "global", "remove"]
-        r = vlib.run_tlc(s, "MC_PathLocks", cfg(3, plans3, fixed, ["ContractInv", "LocksSane"]), name="mc-3h", timeout=2400)
+        plans3 = PLANS if tier == "thorough" else ["read", "open", "write", "unlink", "walk", "clone", "global", "remove"]
+        r = vlib.run_tlc(s, "MC_PathLocks", cfg(3, plans3, fixed, ["ContractInv", "LocksSane", "OpenOnceInv"]), name="mc-3h", timeout=2400)
         if "violated" in r:
             raise Inconclusive("PathLocks.tla violates %s (3 handlers)" % r["violated"])
         states += r.get("distinct", 0)
@@ -153,6 +179,7 @@ def run(prop, tier, seed, rule):
         # 3. rendezvous experiments
         cells = make_cells(rng, tier == "thorough")
         cells += racy_cells(max(c["id"] for c in cells), 3 if tier == "quick" else 12)
+        cells += samefid_cells(max(c["id"] for c in cells))
         cfile = os.path.join(s, "cells.json")
         json.dump(cells, open(cfile, "w"))
         results, traces = run_pairs(s, cfile, "120ms")
